@@ -114,7 +114,7 @@ func opHistories(maxLen int, ids []string, levels []int) [][]SOp {
 }
 
 func histKey(c Cfg, h []Pt) string {
-	s := fmt.Sprintf("%v%v%v%v%d", c.Anon, c.Named, c.SCO, c.Zig, c.Names)
+	s := fmt.Sprintf("%v%v%v%v%d%v", c.Anon, c.Named, c.SCO, c.Zig, c.Names, c.IDTag)
 	for _, p := range h {
 		s += fmt.Sprintf(",%s%d", p.ID, p.Lvl)
 	}
@@ -184,7 +184,7 @@ func Run(r *rt.Run) error {
 	var jobs []job
 	// two showcase histories first (they become the evidence samples; both recur in the enumeration)
 	jobs = append(jobs,
-		job{kind: "node", cfg: Cfg{Anon: true, Named: true, SCO: true}, hist: []Pt{{"a", 2}, {"a", 2}}},
+		job{kind: "node", cfg: Cfg{Anon: true, Named: true, SCO: true, IDTag: true}, hist: []Pt{{"a", 2}, {"a", 2}}},
 		job{kind: "svc", ops: []SOp{{"collect", "named", "ab", 2}, {"collect", "named", "ab", 3}, {"collect", "named", "a", 0}}, zig: true, names: 1})
 	addNode := func(hs [][]Pt, minLen int) {
 		for _, h := range hs {
@@ -192,7 +192,8 @@ func Run(r *rt.Run) error {
 				continue
 			}
 			for _, c := range cfgs {
-				c.Names = len(jobs) % len(nameClasses) // alert ID name class: rotates over the enumeration
+				c.Names = len(jobs) % len(nameClasses)        // alert ID name class: rotates over the enumeration
+				c.IDTag = (len(jobs)/len(nameClasses))%2 == 1 // id template from a non-group tag: alternates
 				both := c.Anon && c.Named
 				// the longest double-crash histories only where the two topics can disagree
 				// and the disagreement matters (stateChangesOnly)
@@ -211,7 +212,7 @@ func Run(r *rt.Run) error {
 	// whatever its time)
 	for _, h := range histories(2, ids, levels, 3) {
 		for _, c := range cfgs {
-			c.Zig, c.Names = true, len(jobs)%len(nameClasses)
+			c.Zig, c.Names, c.IDTag = true, len(jobs)%len(nameClasses), (len(jobs)/len(nameClasses))%2 == 1
 			jobs = append(jobs, job{kind: "node", cfg: c, hist: h})
 		}
 	}
@@ -230,7 +231,7 @@ func Run(r *rt.Run) error {
 			h[k] = Pt{id, lv[id]}
 		}
 		c := cfgs[r.Rand.Intn(len(cfgs))]
-		c.Zig, c.Names = r.Rand.Intn(2) == 0, r.Rand.Intn(len(nameClasses))
+		c.Zig, c.Names, c.IDTag = r.Rand.Intn(2) == 0, r.Rand.Intn(len(nameClasses)), r.Rand.Intn(2) == 0
 		jobs = append(jobs, job{kind: "node", cfg: c, hist: h, taskRestarts: true})
 	}
 	nSvc := 0
@@ -396,7 +397,7 @@ func Run(r *rt.Run) error {
 	r.Extra["crash_restarts_node"] = restarts["crash"]
 	r.Extra["task_restarts_node"] = restarts["taskrestart"]
 	r.Extra["crash_restarts_svc"] = restarts["svc"]
-	r.Finish("node: every level history up to the length bound over 2 alert IDs (a, ab: one a proper prefix of the other) x 4 levels, the longest length of the tier over 3 levels, length 3 and more only with first ID a x {anonymous, named, both topics} x stateChangesOnly on/off on a real AlertNode task, restarted (fresh service + TaskMaster) on the storage as it stood before and after every topic-store commit and at every point boundary with the remaining points fed again, plus the histories up to length 2 with out-of-order event times (1,0), alert ID names rotating over 6 name classes (plain, /, glob metacharacters, space+unicode, dots/blank, quotes/escapes), plus an in-process task restart after every point and (shorter histories) a second crash at every boundary of the second run; svc: every history of Collect/CloseTopic/DeleteTopic on two topics (S, S_high) x IDs a, ab up to the bound, without symmetry reduction, with a restart at every commit boundary (quick: for length 3 only around the last operation), topic and ID names from the 6 name classes (rotating; every class on every history up to length 2), and out-of-order event times on every history up to length 2 over 4 levels; thorough adds seeded random longer histories; non-trivial = at least one topic-store transaction was committed before the crash / task restart (the restart is not on a pristine store); distinct by (configuration, history, crash point)", nRandom == 0)
+	r.Finish("node: every level history up to the length bound over 2 alert IDs (a, ab: one a proper prefix of the other) x 4 levels, the longest length of the tier over 3 levels, length 3 and more only with first ID a x {anonymous, named, both topics} x stateChangesOnly on/off on a real AlertNode task, restarted (fresh service + TaskMaster) on the storage as it stood before and after every topic-store commit and at every point boundary with the remaining points fed again, plus the histories up to length 2 with out-of-order event times (1,0), the .id() template alternating between the group-by tag and a non-group tag (one ID per group), alert ID names rotating over 6 name classes (plain, /, glob metacharacters, space+unicode, dots/blank, quotes/escapes), plus an in-process task restart after every point and (shorter histories) a second crash at every boundary of the second run; svc: every history of Collect/CloseTopic/DeleteTopic on two topics (S, S_high) x IDs a, ab up to the bound, without symmetry reduction, with a restart at every commit boundary (quick: for length 3 only around the last operation), topic and ID names from the 6 name classes (rotating; every class on every history up to length 2), and out-of-order event times on every history up to length 2 over 4 levels; thorough adds seeded random longer histories; non-trivial = at least one topic-store transaction was committed before the crash / task restart (the restart is not on a pristine store); distinct by (configuration, history, crash point)", nRandom == 0)
 	return nil
 }
 
@@ -428,6 +429,7 @@ func jobFromSegment(path string) (job, error) {
 		SCO      bool   `json:"sco"`
 		Times    string `json:"times"`
 		Names    int    `json:"names"`
+		IDTag    bool   `json:"idtag"`
 		LastOnly bool   `json:"lastOnly"`
 		Hist     [][]any
 	}
@@ -441,7 +443,7 @@ func jobFromSegment(path string) (job, error) {
 		}
 		return j, nil
 	}
-	j := job{kind: "node", cfg: Cfg{Anon: reset.HasAnon, Named: reset.HasNamed, SCO: reset.SCO, Zig: reset.Times == "zig", Names: reset.Names}, taskRestarts: true}
+	j := job{kind: "node", cfg: Cfg{Anon: reset.HasAnon, Named: reset.HasNamed, SCO: reset.SCO, Zig: reset.Times == "zig", Names: reset.Names, IDTag: reset.IDTag}, taskRestarts: true}
 	for _, p := range reset.Hist {
 		j.hist = append(j.hist, Pt{p[0].(string), int(p[1].(float64))})
 	}
